@@ -51,21 +51,31 @@ NAME_CLASSES = {
     },
     # a name that begins with a single quote (and does not end with one)
     "leadquote": {"a": "'a", "n1": "'n1x"},
+    # LENGTH classes (plain names): the model's half unit of length is instantiated very small / large
+    # and not representable in few decimals (see LENGTH_UNIT)
+    "tiny": {},
+    "huge": {},
     # the bare word TreeBuilder counts unnamed nodes under, as a tip name
     "reserved": {"b": "edge"},
     # internal names left to the newick parser (the tree is parsed from the text without internal labels)
     "auto": {},
 }
+# real length of one model half unit (default 1/2, exact).  For the other classes lengths are not dyadic:
+# sums are compared with a RELATIVE tolerance (float summation noise is ~1e-16 relative).
+LENGTH_UNIT = {"tiny": 1.23456789e-9 / 2, "huge": 50.000000000123 / 2}
+REL_TOL = 1e-9
 # classes in which an operation may rename internal nodes (names that clash with generated ones):
 # spec names are then resolved by POSITION in a plain-named twin tree that went through the same calls
 TWIN_CLASSES = {"edgelike", "auto"}
 HAS_BLANK = {"soft", "blank"}  # classes for which reading with underscore_unmunge=False is documented to differ
 # name classes exercised on the name-writing/reading calls only (the other calls never look at the text of a name)
-RT_ONLY_CLASSES = {"blank", "odd", "leadquote"}
+RT_ONLY_CLASSES = {"blank", "odd", "leadquote", "tiny", "huge"}
 RT_ACTS = {"Make", "NewickRT", "NewickNamesRT", "NewickDefaultRT", "DndRT", "JsonRT", "RichDictRT"}
 # the reserved tip name: judged on trees fresh from make_tree only (one call after Make), on the round
 # trips and on every call that rebuilds the tree through TreeBuilder
-FRESH_ONLY_CLASSES = {"reserved"}
+# (the length classes too: with non-dyadic lengths the code's exact float comparisons in root_at_midpoint
+# need not follow the model's history)
+FRESH_ONLY_CLASSES = {"reserved", "tiny", "huge"}
 FRESH_ACTS = RT_ACTS | {"RootedAt", "RootedWithTip", "Unrooted", "SubTree", "RootAtMidpoint", "Copy"}
 # the twin classes run on the name-writing calls and on the calls that create or look up internal nodes by name
 TWIN_ACTS = RT_ACTS | {"RootAtMidpoint", "RootedAt", "RootedWithTip"}
@@ -81,6 +91,7 @@ class Ctx:
         self.inv = {v: k for k, v in self.fwd.items()}
         self.tree = None
         self.twin = None
+        self.unit = LENGTH_UNIT.get(variant)
 
     def advance(self, act, res):
         if act not in OBSERVE_ONLY:
@@ -129,6 +140,16 @@ class Unsupported(Exception):
 
 
 # ----------------------------------------------------------------- projection
+def to_units(ctx, x):
+    """real length / path length -> model half units (exact for the default unit 1/2)."""
+    if ctx.unit is None:
+        v = 2 * float(x)
+        return int(v) if v == int(v) else v
+    v = float(x) / ctx.unit
+    r = round(v)
+    return int(r) if abs(v - r) <= REL_TOL * max(1.0, abs(r)) else v
+
+
 def _len2(node):
     v = getattr(node, "length", None)
     if v is None:
@@ -162,7 +183,7 @@ def struct(ctx, tree, raw_unknown=False):
             continue
         k = names[id(node)]
         par[k] = names[id(node.parent)]
-        ln[k] = _len2(node)
+        ln[k] = _len2(node) if ctx.unit is None or node.length is None else to_units(ctx, node.length)
     return {"par": par, "ln": ln}
 
 
@@ -192,8 +213,7 @@ def obs(ctx, tree):
             splits.add(tuple(sorted([tuple(sorted(side)), tuple(sorted(other))])))
     dist = {}
     for (a, b), d in tree.get_distances().items():
-        d2 = 2 * float(d)
-        dist[f"{inv(a)}|{inv(b)}"] = int(d2) if d2 == int(d2) else d2
+        dist[f"{inv(a)}|{inv(b)}"] = to_units(ctx, d)
     rootparts = sorted(tuple(sorted(inv(n) for n in _below(c))) for c in tree.children)
     return {
         "tips": tips,
@@ -241,6 +261,9 @@ def make(ctx, newick, unlabelled=None):
     t = make_tree(unlabelled if ctx.variant == "auto" else newick)
     if ctx.variant not in ("plain", "auto"):
         t.reassign_names(dict(ctx.fwd))
+    if ctx.unit is not None:
+        for node in t.traverse(include_self=False):
+            node.length = node.length * 2 * ctx.unit      # newick text is in units of 2 half units
     return t
 
 
